@@ -1,5 +1,8 @@
 """C07 - snapshots are self-contained checkpoints; restore resumes from node entry."""
+import json
+
 import core_common as cc
+import vlib
 
 PROPERTY = "C07"
 LEVEL = "model_checking"
@@ -33,5 +36,36 @@ SPEC = dict(
 )
 
 
+def abandoned_commands(ctx):
+    """RestoreAt while a converted host command is still running in its goroutine: the abandoned call finishes later, and the
+    restored run - which resumes from node entry like any other - calls the same command again (real goroutines, gates)."""
+    thorough = ctx.tier == "thorough"
+    cases_path, trace_path = ctx.path("cases_gate.ndjson"), ctx.path("trace_gate.ndjson")
+    p = ctx.harness(["core", "cmdrace", "--n", 200 if thorough else 30, "--paths", 3 if thorough else 2, "--cases", cases_path, "--out", trace_path],
+                    check=False, timeout=1500)
+    if p.returncode != 0:
+        raise vlib.MachineryError("cmdrace driver failed rc=%d: %s" % (p.returncode, p.stderr[-2000:]))
+    stats = json.loads(p.stdout.strip().splitlines()[-1])
+    cases, _ = cc.load_cases(cases_path)
+    res = cc.validate(ctx, cases_path, trace_path, label="YarnTrace: RestoreAt while converted commands run (real goroutines)")
+    tix = None
+    for b in res["bad"]:
+        if b["field"] == "wait-too-early":
+            continue        # the timing of <<wait n>> is property C10's
+        tix = tix or cc.TraceIndex(trace_path)
+        ctx.violation(cc.trace_payload(cases, tix, b),
+                      "run with RestoreAt during running commands rejected by the specification (case %d, trace line %d): %s"
+                      % (b["id"], b["line"], cc.describe_diff(b["field"], b["exp"], b["got"])), signature="snap-gate:" + b["field"])
+    ctx.cover(goroutine_runs_with_restores=stats["paths"],
+              restores_while_a_command_was_running=sum(1 for e in vlib.read_ndjson(trace_path) if e["ev"] == "restore"))
+
+
 def run(ctx):
+    if ctx.replay:
+        rp = json.load(open(ctx.replay))["payload"]
+        if str(rp.get("case", {}).get("family", "")).startswith("cmdrace"):
+            ctx.build()
+            return abandoned_commands(ctx)      # goroutine cases cannot be re-driven event by event: re-run the stage
+        return cc.run_core_check(ctx, SPEC)
     cc.run_core_check(ctx, SPEC)
+    abandoned_commands(ctx)
